@@ -236,7 +236,7 @@ static void do_op(const char *op, int a, int b, const char *text)
 #ifndef SIMC
     else if (!strcmp(op, "vec_str_count")) {
         char *names = exact((size_t)a * b); memset(names, ' ', (size_t)a * b);
-        for (int i = 1; i <= a; i++) memset(names + (size_t)(i - 1) * b, 'q', i % (b + 1));
+        for (int i = 1; i <= a; i++) memset(names + (size_t)(i - 1) * b, 'q', (i - 1) % (b + 1));
         sim_phase(1); int r = SIM_vec_str_count_bufferify(names, a, b); sim_phase(0); res_int(r); free(names);
     }
     /* ---- arrays */
@@ -291,19 +291,25 @@ static void do_op(const char *op, int a, int b, const char *text)
     }
     else if (!strcmp(op, "char_arr")) {
         char *names = exact((size_t)a * b); memset(names, ' ', (size_t)a * b);
-        for (int i = 1; i <= a; i++) memset(names + (size_t)(i - 1) * b, 'w', i % (b + 1));
+        for (int i = 1; i <= a; i++) memset(names + (size_t)(i - 1) * b, 'w', (i - 1) % (b + 1));
         sim_phase(1); int r = SIM_char_arr_len_bufferify(names, a, b, a); sim_phase(0); res_int(r); free(names);
     }
+    else if (!strcmp(op, "char_ret_len")) {
+        char *buf = exact(30);
+        sim_phase(1); SIM_char_ret_len_bufferify(a, buf, 30); sim_phase(0); res_str(buf, 30); free(buf);
+    }
 #ifndef SIMC
+    else if (!strcmp(op, "arr_fill_out")) {
+        double *v = (double *)exact(sizeof(double) * (a + 1)); for (int i = 0; i <= a; i++) v[i] = -1.0;
+        sim_phase(1); SIM_arr_fill_out(a, v); sim_phase(0);
+        double s = 0; for (int i = 0; i <= a; i++) s += v[i];
+        res_arr(a + 1, (long)(s * 2)); free(v);
+    }
     else if (!strcmp(op, "str_ptr_in") || !strcmp(op, "str_val_in")) {
         char *buf = fbuf(text, a);
         sim_phase(1);
         int r = op[4] == 'p' ? SIM_str_ptr_in_bufferify(buf, (int)len_trim(buf, a)) : SIM_str_val_in_bufferify(buf, (int)len_trim(buf, a));
         sim_phase(0); res_int(r); free(buf);
-    }
-    else if (!strcmp(op, "char_ret_len")) {
-        char *buf = exact(30);
-        sim_phase(1); SIM_char_ret_len_bufferify(a, buf, 30); sim_phase(0); res_str(buf, 30); free(buf);
     }
     else if (!strcmp(op, "char_ret_null")) { sim_phase(1); SIM_char_ret_null_bufferify(a, &d); fetch_string(&d); }
     else if (!strcmp(op, "vec_iota_d")) {
